@@ -14,6 +14,7 @@ import Driver.RDL
 import Driver.Listener
 import Driver.Life
 import Driver.Ctx
+import Driver.Vnet
 
 def main (args : List String) : IO UInt32 := do
   match args with
@@ -34,4 +35,5 @@ def main (args : List String) : IO UInt32 := do
   | ["listener"] => Driver.runComponent Driver.Listener.comp; return 0
   | ["life"] => Driver.runComponent Driver.Life.comp; return 0
   | ["ctx"] => Driver.runComponent Driver.Ctx.comp; return 0
+  | ["vnet"] => Driver.runComponent Driver.Vnet.comp; return 0
   | _ => IO.eprintln "usage: vdrv <component> [args]"; return 2
